@@ -46,7 +46,7 @@ PROPS = {
                 note="Trusted: simulator, reference implementation, acceptance model. Monotone clock only; the capacity bound is exercised in C11.",
                 technique=TECH + "history generation against an executable acceptance model on a virtual clock"),
     "C05": dict(engine="wire", engines=["wire", "woven"], quick=40, thorough=600, level="exploration", design="DESIGN.md section 4, C05",
-                text="A reference peer (which knows frame boundaries) sends 3-8 frames of all size classes followed by three full frames; one attacker edit per run (bit flip in length / tag / body, delete, duplicate, swap, replay of an earlier frame, junk insertion, truncation then EOF or silence) under all chunkings against a real client or server; oracle: delivered bytes are a prefix of the plaintext that never extends past the damaged frame, and Read reports an error once the damage plus two maximum frames were delivered.",
+                text="A reference peer (which knows frame boundaries) sends 3-8 frames of all size classes followed by three full frames; one attacker edit per run (bit flip in length / tag / body, delete, duplicate, swap, replay of an earlier frame, junk insertion, truncation then EOF or silence, a body re-sealed under the all-zero key with the right counter sent at the instant the victim's application closes the connection under a blocked Read) under all chunkings against a real client or server, on the unwoven and on the statement-woven build; oracle: delivered bytes are a prefix of the plaintext that never extends past the damaged frame, and Read reports an error once the damage plus two maximum frames were delivered.",
                 note="Trusted: simulator, reference implementation. Real code: obfs4 framing / packet / Read path in both roles.",
                 technique=TECH + "on-path stream tampering faults with prefix-model oracle"),
     "C06": dict(engine="wire", quick=40, thorough=600, level="exploration", design="DESIGN.md section 4, C06",
@@ -90,7 +90,7 @@ PROPS = {
                 note="Kill model: completed disk steps persist, the step in progress persists a prefix (no loss of completed-but-unsynced writes). Trusted: simulator, simos disk model, the weave import shim (os -> simos in statefile.go and handshake_ticket.go).",
                 technique=TECH + "crash/error enumeration over every disk step of generated start-up histories with an identity-persistence model"),
     "C19": dict(engine="relay", quick=30, thorough=600, level="exploration", design="DESIGN.md section 4, C19",
-                text="The real copyLoop between two simulated connections whose far ends are scripted producer/consumer tasks (chunk sizes 1..40000, pauses, slow readers, send buffers down to 100 bytes, latencies, all chunkings) ending by half-close, close, reset or not at all; oracle: received bytes are a prefix of what the opposite side produced, a side that ends first while the other is healthy has everything forwarded, both conns closed and copyLoop returned within 10 virtual minutes. The real termMonitor (built from its fields, runtime select order under the seeded seam) with 0-4 handler tasks, SIGINT at a chosen time, optional SIGTERM, late handlers; oracle: wait(true) returns exactly when no handler is active, including when none ever was.",
+                text="The real copyLoop between two simulated connections whose far ends are scripted producer/consumer tasks (chunk sizes 1..40000, pauses, slow readers, send buffers down to 100 bytes, latencies, all chunkings) ending by half-close, close, reset or not at all; oracle: received bytes are a prefix of what the opposite side produced, a side that ends first while the other is healthy has everything forwarded, both conns closed and copyLoop returned within 10 virtual minutes; one part runs copyLoop between a plain conn and a real obfs4 server conn whose real obfs4 client sends bursts of 1 byte .. 100 KiB (16..23 KiB favoured), is answered, and closes: every byte it wrote must come out first. The real termMonitor (built from its fields, runtime select order under the seeded seam) with 0-4 handler tasks, SIGINT at a chosen time, optional SIGTERM, late handlers; oracle: wait(true) returns exactly when no handler is active, including when none ever was.",
                 note="Harness files are injected into package main through the build overlay; signal.Notify, stdin/ppid watchers and main()'s flag handling are not run. Trusted: simulator, runtime select seam (inert unless armed).",
                 technique=TECH + "scripted far ends with EOF/RST/close faults and seeded scheduling; handler/signal histories against a handler-count model"),
 }
@@ -598,7 +598,7 @@ COMPONENTS = {
     "C02": {"real": ["transports/obfs4 client and server", "common/ntor", "internal/x25519ell2"], "simulated": SIM_COMMON, "stub": ["impostor / on-path attacker: reference implementation sim/ref/obfs4ref"]},
     "C03": {"real": ["transports/obfs4 server (WrapConn, closeAfterDelay)", "common/replayfilter"], "simulated": SIM_COMMON, "stub": ["probers and control client: sim/ref/obfs4ref"]},
     "C04": {"real": ["transports/obfs4 server", "common/replayfilter"], "simulated": SIM_COMMON + ["woven engine: statement-level preemption and time-skips (stalled thread)"], "stub": ["clients: sim/ref/obfs4ref"]},
-    "C05": {"real": ["transports/obfs4 client or server (framing, packet, Read path)"], "simulated": SIM_COMMON, "stub": ["peer and attacker: sim/ref/obfs4ref"]},
+    "C05": {"real": ["transports/obfs4 client or server (framing, packet, Read path, Close)"], "simulated": SIM_COMMON + ["woven engine: statement-level preemption (Close racing Read)"], "stub": ["peer and attacker: sim/ref/obfs4ref"]},
     "C06": {"real": ["transports/obfs4 client or server incl. bridge-line parsing"], "simulated": SIM_COMMON, "stub": ["the other role: independent reference sim/ref/obfs4ref (math/big Elligator 2, own ntor, SipHash OFB, frame and packet codec)"]},
     "C09": {"real": ["transports/obfs4 client and server", "common/probdist", "common/drbg"], "simulated": SIM_COMMON + ["woven engine: statement-level preemption (Reset racing Sample)"], "stub": ["length table oracle: reference DRBG + math/rand Perm/Intn"]},
     "C10": {"real": ["transports/obfs2, obfs3, obfs4 (both roles)", "transports/scramblesuit client", "transports/meeklite client with net/http", "common/socks5"], "simulated": SIM_COMMON + ["runtime select order (seeded seam)"], "stub": ["chaos peers, ScrambleSuit reference server, HTTP server; peers that hold the keys but seal malformed packets (obfs4ref, obfsref)"]},
@@ -609,7 +609,7 @@ COMPONENTS = {
     "C16": {"real": ["transports/meeklite client", "net/http client transport"], "simulated": SIM_COMMON + ["runtime select order (seeded seam)", "woven engine: statement-level preemption in meek.go"], "stub": ["HTTP/1.1 server (http.ReadRequest over simnet)"]},
     "C17": {"real": ["common/socks5 (Handshake, Reply, argument parser)"], "simulated": SIM_COMMON, "stub": ["tor's SOCKS5 client and pt-spec argument encoder (harness)"]},
     "C18": {"real": ["transports/obfs4 server factory and state file code", "transports/scramblesuit client factory and ticket store"], "simulated": ["file system (simos: kill, torn write, EIO, ENOSPC at every mutating step; EIO, EACCES at every read)"] + SIM_COMMON, "stub": ["ScrambleSuit reference server; reference cert parser"]},
-    "C19": {"real": ["obfs4proxy copyLoop", "obfs4proxy clientHandler and serverHandler", "obfs4proxy newTermMonitor and termMonitor (wait, onHandlerStart, onHandlerFinish)", "common/socks5"], "simulated": SIM_COMMON + ["runtime select order (seeded seam)", "signals: offered on the monitor's channel by the simulation"], "stub": ["far ends, tor's SOCKS client, transports behind the handlers (stub factories), the ORPort (pt.DialOr redirected to the simulation); stdin/ppid watchers, accept loops and main() are not run"]},
+    "C19": {"real": ["obfs4proxy copyLoop", "obfs4proxy clientHandler and serverHandler", "obfs4proxy newTermMonitor and termMonitor (wait, onHandlerStart, onHandlerFinish)", "common/socks5", "transports/obfs4 client and server (part relay-real-obfs4: the PT side of copyLoop)"], "simulated": SIM_COMMON + ["runtime select order (seeded seam)", "signals: offered on the monitor's channel by the simulation"], "stub": ["far ends, tor's SOCKS client, transports behind the handlers (stub factories; a real obfs4 pair in part relay-real-obfs4), the ORPort (pt.DialOr redirected to the simulation); stdin/ppid watchers, accept loops and main() are not run"]},
 }
 
 
